@@ -138,17 +138,17 @@ Proof.
   - intros len w1 Hlen Hw1. rewrite (Hw1 _ eq_refl). clear Hw1.
     rewrite (core_of_row c len (pack fs) (pack gs) r VOP3b 26 52 Hr eq_refl).
     + cbn [dispatch]. unfold decode_vop3b, read_hi.
-      Time destruct (N.ltb_spec len 8); [lia|]. cbn [bind]. cbv zeta.
-      Time xfield Hok. xfield Hgk.
-      Time change (i_row (inst0 (fmt_format VOP3b) r)) with r.
-      Time rewrite <- (code_sdst_opnd sdst) at 1. rewrite (getop_code _ Hsd1). cbn [bind].
-      Time rewrite (pre_nolit _ (sdst_nolit _ Hsd2)), cnt64_spec.
-      Time destruct (vop3_src s0 (r_src0w r) Ha La) as [G0 C0]. rewrite G0. cbn [bind]. rewrite C0.
-      Time destruct (vop3_src s1 (r_src1w r) Hb Lb) as [G1 C1]. rewrite G1. cbn [bind]. rewrite C1.
-      Time destruct (vop3_src s2 (r_src2w r) Hc Lc) as [G2 C2].
-      Time rewrite nz_b2n, new_vreg_spec, cnt64_vgpr by assumption.
-      Time unfold spec_inst, base_inst, dsize. cbn [d_row words snd]. rowfmt Hr.
-      Time destruct (255 <? r_opcode r), (0 <? r_src2w r); cbn [andb]; rewrite ?G2; cbn [bind]; rewrite ?C2; reflexivity.
+      destruct (N.ltb_spec len 8); [lia|]. cbn [bind]. cbv zeta.
+      xfield Hok. xfield Hgk.
+      change (i_row (inst0 (fmt_format VOP3b) r)) with r.
+      rewrite <- (code_sdst_opnd sdst) at 1. rewrite (getop_code _ Hsd1). cbn [bind].
+      rewrite (pre_nolit _ (sdst_nolit _ Hsd2)), cnt64_spec.
+      destruct (vop3_src s0 (r_src0w r) Ha La) as [G0 C0]. rewrite G0. cbn [bind]. rewrite C0.
+      destruct (vop3_src s1 (r_src1w r) Hb Lb) as [G1 C1]. rewrite G1. cbn [bind]. rewrite C1.
+      destruct (vop3_src s2 (r_src2w r) Hc Lc) as [G2 C2].
+      rewrite nz_b2n, new_vreg_spec, cnt64_vgpr by assumption.
+      unfold spec_inst, base_inst, dsize. cbn [d_row words snd]. rowfmt Hr.
+      destruct (255 <? r_opcode r), (0 <? r_src2w r); cbn [andb]; rewrite ?G2; cbn [bind]; rewrite ?C2; reflexivity.
     + rewrite (drop_div fs Hok 26 _ eq_refl). reflexivity.
     + opc VOP3a 16 25 Hok.
     + opc VOP3b 16 25 Hok.
@@ -157,4 +157,57 @@ Proof.
   - unfold spec_inst, base_inst, dsize. cbn [d_row words snd]. reflexivity.
 Qed.
 
+Lemma bit_tests x : x < 8 ->
+  nz (N.land x 1) = N.testbit x 0 /\ nz (N.land x 2) = N.testbit x 1 /\ nz (N.land x 4) = N.testbit x 2.
+Proof.
+  intros H. assert (x = 0 \/ x = 1 \/ x = 2 \/ x = 3 \/ x = 4 \/ x = 5 \/ x = 6 \/ x = 7) as E by lia.
+  destruct E as [->|[->|[->|[->|[->|[->|[->| ->]]]]]]]; repeat split; reflexivity.
+Qed.
 
+Lemma lor_shift2 a b : a < 4 -> b < 2 -> N.lor a (N.shiftl b 2) = a + 4 * b.
+Proof.
+  intros Ha Hb. assert (a = 0 \/ a = 1 \/ a = 2 \/ a = 3) as Ea by lia.
+  assert (b = 0 \/ b = 1) as Eb by lia.
+  destruct Ea as [->|[->|[->| ->]]], Eb as [->| ->]; reflexivity.
+Qed.
+
+Theorem decode_encode_vop3a c r vdst abs opsel clamp s0 s1 s2 omod neg tail :
+  let d := DVop3a r vdst abs opsel clamp s0 s1 s2 omod neg in
+  wf d = true -> decode c (encode d ++ tail) = Ok (spec_inst c d) (dsize d).
+Proof.
+  intros d. subst d. cbn [wf]. rewrite !andb_true_iff.
+  intros [[[[[[[[Hr Hvd] Hab] Hos] Ha] Hb] Hc] Hom] Hng].
+  apply N.ltb_lt in Hab, Hos, Hom, Hng.
+  apply src9nl_split in Ha, Hb, Hc. destruct Ha as [Ha La], Hb as [Hb Lb], Hc as [Hc Lc].
+  pose proof (row_opcode_bound VOP3a r 10 Hr eq_refl) as Hop.
+  pose proof (opnd_code_bound s0 Ha) as Hab0. pose proof (opnd_code_bound s1 Hb) as Hbb.
+  pose proof (opnd_code_bound s2 Hc) as Hcb.
+  assert (Hvb : vdst <= 255) by (destruct (r_opcode r <=? 255); lia).
+  set (fs := [(vdst, 8); (abs, 3); (opsel, 4); (b2n clamp, 1); (r_opcode r, 10); (52, 6)]).
+  set (gs := [(code_of s0, 9); (code_of s1, 9); (code_of s2, 9); (omod, 2); (neg, 3)]).
+  assert (Hok : fields_ok fs) by (unfold fs; destruct clamp; fok).
+  assert (Hgk : fields_ok gs) by fok.
+  apply decode_encode_wrap; unfold dsize; cbn [words fst snd]; fold fs; fold gs.
+  - exact (pack_bound fs Hok).
+  - intros w E; inversion E. exact (pack_bound gs Hgk).
+  - intros len w1 Hlen Hw1. rewrite (Hw1 _ eq_refl). clear Hw1.
+    rewrite (core_of_row c len (pack fs) (pack gs) r VOP3a 26 52 Hr eq_refl).
+    + cbn [dispatch]. unfold decode_vop3a, read_hi.
+      destruct (N.ltb_spec len 8); [lia|]. cbn [bind]. cbv zeta.
+      xfield Hok. xfield Hgk. xsub Hok.
+      change (i_row (inst0 (fmt_format VOP3a) r)) with r.
+      assert (Hd : (if r_opcode r <=? 255 then getop vdst else ROk (new_vreg vdst vdst 0))
+                   = ROk (if r_opcode r <=? 255 then spec_operand (PS vdst) 0 else spec_vgpr vdst 0)).
+      { destruct (r_opcode r <=? 255).
+        - apply (getop_code (PS vdst)). exact Hvd.
+        - rewrite new_vreg_spec by exact Hvb. reflexivity. }
+      rewrite Hd. cbn [bind].
+      destruct (vop3_src s0 (r_src0w r) Ha La) as [G0 C0]. rewrite G0. cbn [bind]. rewrite C0.
+      destruct (vop3_src s1 (r_src1w r) Hb Lb) as [G1 C1]. rewrite G1. cbn [bind]. rewrite C1.
+      destruct (vop3_src s2 (r_src2w r) Hc Lc) as [G2 C2].
+      destruct (bit_tests abs Hab) as (A0 & A1 & A2). rewrite A0, A1, A2.
+      destruct (bit_tests neg Hng) as (N0' & N1' & N2'). rewrite N0', N1', N2'.
+      rewrite nz_b2n.
+      assert (Hhi : (opsel / 2 ^ (14 - 11)) mod 2 ^ (14 - 14 + 1) = opsel / 8).
+      { pow2. apply N.mod_small. apply N.div_lt_upper_bound; lia. }
+Abort.
